@@ -48,6 +48,90 @@ let show_ext (e : GroupDataExt.ext) =
     (show_list e.admins) (show_list (L.map fst e.relays))
     (show_opt e.ihash) (show_opt e.ikey) (show_opt e.inonce) (show_opt e.iupload)
 
+
+(* ------------------------------------------------------------------ storage contract (Store/Contract.v) *)
+module C = Contract
+let ni s = n_of_int (int_of_string s)
+let oi s = if s = "-" then None else Some (ni s)
+let li s = L.map ni (split_on ',' s)
+let si n = string_of_int (int_of_n n)
+let so = function None -> "-" | Some n -> si n
+let sl l = if l = [] then "-" else String.concat "," (L.map si l)
+let sorted_ints l = L.sort compare (L.map int_of_n l)
+let sl_sorted l = if l = [] then "-" else String.concat "," (L.map string_of_int (sorted_ints l))
+let joinl sort v = let v = if sort then L.sort compare v else v in if v = [] then "-" else String.concat ";" v
+
+let show_group (g : C.group) =
+  Printf.sprintf "g(%s,%s,%s,%s,%s,%s,%s,%s,%s,%s,%s,%s)" (si g.g_id) (si g.g_nostr) (si g.g_name) (si g.g_descr)
+    (sl_sorted g.g_admins) (si g.g_img) (so g.g_last_id) (so g.g_last_at) (so g.g_last_proc) (si g.g_epoch) (si g.g_state) (si g.g_self_update)
+let show_msg (m : C.msg) =
+  Printf.sprintf "m(%s,%s,%s,%s,%s,%s,%s,%s,%s,%s,%s)" (si m.m_id) (si m.m_group) (si m.m_pubkey) (si m.m_kind) (si m.m_created)
+    (si m.m_processed) (si m.m_content) (si m.m_tags) (si m.m_wrapper) (so m.m_epoch) (si m.m_state)
+let show_pmsg (p : C.pmsg) =
+  Printf.sprintf "p(%s,%s,%s,%s,%s,%s,%s)" (si p.p_wrapper) (so p.p_msg) (si p.p_at) (so p.p_epoch) (so p.p_group) (si p.p_state) (so p.p_reason)
+let show_welcome (w : C.welcome) =
+  Printf.sprintf "w(%s,%s,%s,%s,%s,%s)" (si w.w_id) (si w.w_group) (si w.w_nostr) (si w.w_payload) (si w.w_state) (si w.w_wrapper)
+let show_pw (p : C.pwelcome) =
+  Printf.sprintf "pw(%s,%s,%s,%s,%s)" (si p.pw_wrapper) (so p.pw_welcome) (si p.pw_at) (si p.pw_state) (so p.pw_reason)
+
+(* which listings are order-significant is decided per operation, as in the harness *)
+let show_res (opname : string) (r : C.res) : string =
+  match r with
+  | C.ROk -> "ok" | C.RErr -> "err" | C.RNotFound -> "notfound"
+  | C.RGroup g -> "group:" ^ (match g with Some g -> show_group g | None -> "-")
+  | C.RGroups l -> "groups:" ^ joinl true (L.map show_group l)
+  | C.RMsg m -> "msg:" ^ (match m with Some m -> show_msg m | None -> "-")
+  | C.RMsgs l -> "msgs:" ^ joinl (opname <> "Messages") (L.map show_msg l)
+  | C.RPmsg p -> "pmsg:" ^ (match p with Some p -> show_pmsg p | None -> "-")
+  | C.RPmsgs l -> "pmsgs:" ^ joinl true (L.map show_pmsg l)
+  | C.RIds l -> "ids:" ^ sl_sorted l
+  | C.RNum n -> "num:" ^ so n
+  | C.RWelcome w -> "welcome:" ^ (match w with Some w -> show_welcome w | None -> "-")
+  | C.RWelcomes l -> "welcomes:" ^ joinl false (L.map show_welcome l)
+  | C.RPwelcome p -> "pwelcome:" ^ (match p with Some p -> show_pw p | None -> "-")
+  | C.RSnaps l -> "snaps:" ^ sl_sorted (L.map fst l)
+  | C.RCount n -> "count:" ^ si n
+  | C.RVal v -> "val:" ^ so v
+
+let huge = n_of_int max_int  (* stands for offsets beyond any list length (usize::MAX, i64::MAX+1) *)
+let parse_op (t : string list) : C.op =
+  let a = Array.of_list t in
+  let n i = ni a.(i) in
+  match a.(0) with
+  | "SaveGroup" -> C.SaveGroup { C.g_id = n 1; g_nostr = n 2; g_name = n 3; g_descr = n 4; g_admins = li a.(5); g_img = n 6;
+                                 g_last_id = oi a.(7); g_last_at = oi a.(8); g_last_proc = oi a.(9); g_epoch = n 10; g_state = n 11; g_self_update = n 12 }
+  | "FindGroup" -> C.FindGroup (n 1) | "FindByNostr" -> C.FindByNostr (n 1) | "AllGroups" -> C.AllGroups
+  | "Admins" -> C.Admins (n 1) | "Relays" -> C.Relays (n 1) | "ReplaceRelays" -> C.ReplaceRelays (n 1, li a.(2))
+  | "GetSecret" -> C.GetSecret (n 1, n 2) | "SaveSecret" -> C.SaveSecret (n 1, n 2, n 3)
+  | "SaveMsg" -> C.SaveMsg { C.m_id = n 1; m_group = n 2; m_pubkey = n 3; m_kind = n 4; m_created = n 5; m_processed = n 6; m_content = n 7;
+                             m_tags = n 8; m_wrapper = n 9; m_epoch = oi a.(10); m_state = n 11 }
+  | "FindMsg" -> C.FindMsg (n 1, n 2)
+  | "Messages" -> C.Messages (n 1, n 2, (if a.(3) = "max" || a.(3) = "i64max1" then huge else n 3), n 4)
+  | "LastMessage" -> C.LastMessage (n 1, n 2)
+  | "SavePmsg" -> C.SavePmsg { C.p_wrapper = n 1; p_msg = oi a.(2); p_at = n 3; p_epoch = oi a.(4); p_group = oi a.(5); p_state = n 6; p_reason = oi a.(7) }
+  | "FindPmsg" -> C.FindPmsg (n 1)
+  | "InvalidateMsgs" -> C.InvalidateMsgs (n 1, n 2) | "InvalidatePmsgs" -> C.InvalidatePmsgs (n 1, n 2)
+  | "FindFailedRetry" -> C.FindFailedRetry (n 1) | "FindInvalidatedMsgs" -> C.FindInvalidatedMsgs (n 1)
+  | "FindInvalidatedPmsgs" -> C.FindInvalidatedPmsgs (n 1) | "MarkRetryable" -> C.MarkRetryable (n 1)
+  | "SaveWelcome" -> C.SaveWelcome { C.w_id = n 1; w_group = n 2; w_nostr = n 3; w_payload = n 4; w_state = n 5; w_wrapper = n 6 }
+  | "FindWelcome" -> C.FindWelcome (n 1) | "PendingWelcomes" -> C.PendingWelcomes (n 1, n 2)
+  | "SavePwelcome" -> C.SavePwelcome { C.pw_wrapper = n 1; pw_welcome = oi a.(2); pw_at = n 3; pw_state = n 4; pw_reason = oi a.(5) }
+  | "FindPwelcome" -> C.FindPwelcome (n 1)
+  | "MlsWrite" -> C.MlsWrite (n 1, n 2, n 3, n 4) | "MlsRead" -> C.MlsRead (n 1, n 2, n 3) | "MlsDelete" -> C.MlsDelete (n 1, n 2, n 3)
+  | "GlobalWrite" -> C.GlobalWrite (n 1, n 2, n 3) | "GlobalRead" -> C.GlobalRead (n 1, n 2) | "GlobalDelete" -> C.GlobalDelete (n 1, n 2)
+  | "Snapshot" -> C.Snapshot (n 1, n 2, n 3) | "Rollback" -> C.Rollback (n 1, n 2) | "Release" -> C.Release (n 1, n 2)
+  | "ListSnaps" -> C.ListSnaps (n 1) | "Prune" -> C.Prune (n 1)
+  | _ -> failwith "op"
+
+let st_state = ref C.empty
+let handle_storage (t : string list) : string =
+  match t with
+  | ["RESET"] -> st_state := C.empty; "RESET"
+  | opname :: _ ->
+    let (s', r) = C.step !st_state (parse_op t) in
+    st_state := s'; show_res opname r
+  | [] -> "UNKNOWN-CASE"
+
 let handle (line : string) : string =
   match String.split_on_char ' ' line with
   | "EXTDEC" :: hex :: rest ->
@@ -70,6 +154,7 @@ let handle (line : string) : string =
     (match GroupDataExt.serialize e with
      | Some b -> Printf.sprintf "OK rt=%b %s" (GroupDataExt.roundtrip_ok orc e) (hex_of_bytes b)
      | None -> "ERR")
+  | "ST" :: rest -> handle_storage rest
   | "VARINT" :: n :: _ ->
     (match enc_len (n_of_int (int_of_string n)) with Some b -> "OK " ^ hex_of_bytes b | None -> "ERR")
   | _ -> "UNKNOWN-CASE"
